@@ -3,7 +3,22 @@
 // instantiated once per scalar type by the translation units c16_t_<type>.cpp to keep the compile time bounded).
 #include "c16_impl.cpp"
 
+#if defined(__SANITIZE_ADDRESS__)
+#include <sanitizer/common_interface_defs.h>
+#endif
+
 using namespace c16;
+
+namespace
+{
+char g_case[96] = "CASE ?\n"; ///< the case that is running (repeated after a sanitizer report, whose length would
+                              ///< otherwise push the announcement out of the log tail that the driver looks at)
+void repeat_case_at_death()
+{
+    const auto n = ::write(2, g_case, std::strlen(g_case));
+    (void)n;
+}
+} // namespace
 
 int main(int argc, char** argv)
 {
@@ -15,6 +30,9 @@ int main(int argc, char** argv)
         return 2;
     }
     g_exact = stage == "asan";
+#if defined(__SANITIZE_ADDRESS__)
+    __sanitizer_set_death_callback(repeat_case_at_death);
+#endif
     report_t r("c16/" + stage, args);
 
     // scalar types of this run: --types a,b,c | all
@@ -114,7 +132,8 @@ int main(int argc, char** argv)
     {
         if (trace)
         {
-            std::fprintf(stderr, "CASE %s:%llu\n", tag.c_str(), static_cast<unsigned long long>(index));
+            std::snprintf(g_case, sizeof(g_case), "CASE %s:%llu\n", tag.c_str(), static_cast<unsigned long long>(index));
+            std::fputs(g_case, stderr);
             std::fflush(stderr);
         }
     };
